@@ -18,6 +18,7 @@ LANES = {
     "C12": [dict(REL)],
     "C10": [dict(REL), dict(DBG)],
     "C05": [dict(REL)],
+    "C09": [dict(REL)],
     "C07": [dict(REL), dict(DBG)],
     "C13": [dict(REL)],
     "C14": [dict(REL), dict(DBG)],
